@@ -21,6 +21,26 @@ CHECKS = {
              'irrelevant and that the laws hold; every configuration TLC reaches becomes a real #[derive(Educe)] type whose == / != are executed on all '
              'ordered value pairs, and every recorded call (operands, probe calls, result) must be explained by PropEq in a TLC trace-validation run.',
         design_ref='DESIGN.md section 6 (C02), sections 3-5', note=TB_R),
+    'C03': dict(
+        technique='TLA+ spec (EduceRun.CmpDecl/ImplCmpStep/PropCmp, MC_C03) model-checked with TLC; TLC-enumerated corpus compiled with the real derive; '
+                  'probe call traces validated by TLC against TraceR.tla',
+        text='TLC checks that the emitted rank-ordered chain equals the declarative lexicographic order (None propagation, ignored fields irrelevant, total-order laws, '
+             'partial_cmp = Some(cmp) by construction of OrdFn); every reachable configuration (ranks in every spelling, the four ways to educe ordering) is compiled and '
+             'cmp/partial_cmp run on all ordered pairs incl. an incomparable value; each recorded call must be justified along the rank order by PropCmp.',
+        design_ref='DESIGN.md section 6 (C03)', note=TB_R),
+    'C04': dict(
+        technique='TLA+ spec (EduceRun.Disc/CmpDecl, MC_C04) model-checked with TLC; TLC-enumerated enum corpus (discriminants x repr x payload types) compiled with the '
+                  'real derive; results under three neighbour-byte placements validated by TLC (TraceR.PropCmpResults)',
+        text='The specification orders variants by Disc (explicit literal or previous+1) and contains no layout; TLC checks the emitted algorithm against it. The harness '
+             'supplies the layout matrix: payloads with niches/zero size, #[repr] variants, each comparison repeated with the operands written into cells pre-filled with '
+             'different byte patterns; every observed result must equal the declarative one.',
+        design_ref='DESIGN.md section 6 (C04)', note=TB_R + ' Memory layout itself is outside TLA+; see DESIGN.md section 10.'),
+    'C05': dict(
+        technique='TLA+ spec (EduceRun.ImplHashStep/PropHashAll, MC_C05) model-checked with TLC; corpus compiled with the real derive; recording-hasher feeds validated by TLC',
+        text='TLC checks that the emitted feed (variant prefix + field feeds in declaration order) is a function of, and injective on, (variant, non-ignored fields) and that '
+             'a == b implies equal feeds; for every reachable configuration every value is hashed into a recording Hasher and the whole observation set is judged over all '
+             'pairs of values by PropHashAll (the prefix is not assumed, only functional/injective behaviour).',
+        design_ref='DESIGN.md section 6 (C05)', note=TB_R),
 }
 
 NOT_YET = 'check not built yet (work in progress, see DESIGN.md section 11)'
